@@ -2,7 +2,7 @@
 open Model
 open Common
 
-let fmt_fail (fail : int option) (stack : string) (dlo : int option) (cs : call list) (c : ctr) : string =
+let fmt_fail ?(bigoff = false) (fail : int option) (stack : string) (dlo : int option) (cs : call list) (c : ctr) : string =
   match fail with
   | Some k when k < List.length cs ->
       Printf.sprintf "calls=%s err=1 probes=- cmps=-" (fmt_calls (firstn (k + 1) cs))
@@ -10,7 +10,8 @@ let fmt_fail (fail : int option) (stack : string) (dlo : int option) (cs : call 
   | None ->
       let probes = if dlo = None then 0 else i c.probes in
       if stack = "none" then
-        Printf.sprintf "calls=%s err=0 probes=%d cmps=%d post=%d" (fmt_calls cs) probes (i c.cmps) (i c.post_cmps)
+        Printf.sprintf "calls=%s err=0 probes=%d cmps=%d post=%d%s" (fmt_calls cs) probes (i c.cmps) (i c.post_cmps)
+          (if bigoff && dlo = None then " bigoff_same=1" else "")
       else Printf.sprintf "calls=%s err=0 probes=%d cmps=-" (fmt_calls cs) probes
 
 let case_raw h : string =
@@ -27,7 +28,9 @@ let case_raw h : string =
       { run = (fun wd w -> diff_deadline alg wd !dbg orc (n os) (n oe) (n ns) (n ne) w) }
   in
   match r with
-  | Ok (cs, c) -> fmt_fail fail stack dlo cs c
+  | Ok (cs, c) ->
+      let idx = get_def h "idx" "S" in
+      fmt_fail ~bigoff:(String.length idx > 0 && idx.[0] = 'O') fail stack dlo cs c
   | Panic -> "PANIC"
   | OutOfFuel -> "OUTOFFUEL"
 
